@@ -1,4 +1,5 @@
 import MazeVerif.Lemmas.LegacyTokRound
+import MazeVerif.Lemmas.LegacyTokLink
 /-! # C07 — legacy tokenization round-trips and agrees with its modular equivalent
 
 Model: `MZ.LT` (`Model/LegacyTok.lean`), mirroring `LatticeMaze._as_tokens / from_tokens / from_adj_list`, `token_utils`
@@ -233,6 +234,131 @@ theorem C07_modular_roundtrip (mode : Mode) (mz : AnyMaze) (adj : List (NCell ×
   obtain ⟨mz'', h3, h4⟩ := C07_roundtrip_string mode mz adj (.modular true) (by simp) hg hv
   exact ⟨_, mz', C07_legacy_eq_modular mode mz adj hsol, h1, h2, mz'', h3, h4⟩
 
+/-! ## the C07 model of the modular tokenizer is the C06 model at `from_legacy`'s configuration
+
+`modularTokens` above is a specialised model of `MazeTokenizerModular.from_legacy(mode).to_tokens`; property C06 has the general
+model `MZ.Tok.toTokens cfg`. The theorems below tie the two (and hence `legacyTokens = asTokens`) to the C06 model, so that
+`C07_legacy_eq_modular` is not merely "model against model".
+
+Conversions (Lemmas/LegacyTokLink.lean): `fromLegacyCfg : Mode → Tok.TokCfg` (read off the generated `from_legacy` table, see
+`C07_fromLegacyCfg_generated`), `toMazeIn : AnyMaze → Tok.MazeIn` (same `connection_list`, entries `Nat×Int×Int` instead of
+`Nat×Nat×Nat`), `render : List Tok.Tok → List Str` (`Tok.str` then `String.toList`). The emission order has the SAME
+representation in both models, `List ((Nat×Nat)×(Nat×Nat))` = (leading coord, trailing coord) per emitted edge, so `order' = order`;
+only the legality predicates differ (`Tok.ValidOrder`: a permutation of the canonical edge list up to orientation; `ValidAdj`:
+the same set of edges up to orientation) — `C07_order_legality`. -/
+
+/-- every listed pair is a connection of the maze (what both legality predicates imply, and all the link needs) -/
+def AllConn (mz : AnyMaze) (order : List (NCell × NCell)) : Prop := ∀ e ∈ order, Tok.isConn (toMaze mz.base) e = true
+
+instance (mz : AnyMaze) (order : List (NCell × NCell)) : Decidable (AllConn mz order) := by unfold AllConn; exact inferInstance
+
+/-- an emission order that property C06 calls legal for the configuration `from_legacy(mode)` builds -/
+def LegalC06 (mode : Mode) (mz : AnyMaze) (order : List (NCell × NCell)) : Prop :=
+  ∃ es, Tok.selEdges (fromLegacyCfg mode).adj.subset (toMazeIn mz).maze = some es ∧
+    Tok.ValidOrder (fromLegacyCfg mode).adj.permuter (fromLegacyCfg mode).adj.shuffle es order
+
+private theorem legalC06_iff (mode : Mode) (mz : AnyMaze) (order : List (NCell × NCell)) :
+    LegalC06 mode mz order ↔ Tok.ValidOrder .random true (Tok.connEdges (toMaze mz.base) false) order := by
+  unfold LegalC06
+  rw [toMazeIn_maze]
+  constructor
+  · rintro ⟨es, h1, h2⟩
+    have : es = Tok.connEdges (toMaze mz.base) false := by
+      simp only [cfg_adj, legacyAdjCfg, Tok.selEdges, Option.some.injEq] at h1; exact h1.symm
+    subst this; exact h2
+  · intro h; exact ⟨_, rfl, h⟩
+
+/-- **The configuration is the source's.** For each legacy mode, the run-time value the translator obtained by calling
+    `MazeTokenizerModular.from_legacy(TokenizationMode.<mode>)` (generated table `MZ.Gen.Tok.fromLegacy`, re-emitted on every run)
+    reads, field by field, as the C06 configuration `fromLegacyCfg mode`:
+    `AOTP(UT() | CTT(T,T,T), AdjListCoord(pre=F, post=T, shuffle_d0=T, Ungrouped(1), ConnectionEdges(walls=F), RandomCoords()),
+    Unlabeled(post=F), StepSequence(Singles(), (Coord(),), F, F, F))`. -/
+theorem C07_fromLegacyCfg_generated (mode : Mode) :
+    (MZ.Gen.Tok.fromLegacy.lookup mode.pyName).bind cfgOfVal = some (fromLegacyCfg mode) := fromLegacyCfg_generated mode
+
+/-- **Legality of orders, both ways of saying it.** (1) an order that C06 calls legal for `from_legacy(mode)` lists only
+    connections; (2) so does an order that is legal in C07's sense (`ValidAdj`) when `connection_list` has dims 0/1;
+    (3) on a well-formed maze, C06-legal implies C07-legal. -/
+theorem C07_order_legality (mode : Mode) (mz : AnyMaze) (order : List (NCell × NCell)) :
+    (LegalC06 mode mz order → AllConn mz order) ∧
+    ((∀ e ∈ mz.base.edges, e.1 = 0 ∨ e.1 = 1) → ValidAdj mz.base order → AllConn mz order) ∧
+    (mz.base.WF → LegalC06 mode mz order → ValidAdj mz.base order) :=
+  ⟨fun h => isConn_of_validOrder ((legalC06_iff mode mz order).1 h),
+   fun hd hv => isConn_of_validAdj hd hv,
+   fun hwf h => validAdj_of_validOrder hwf ((legalC06_iff mode mz order).1 h)⟩
+
+/-- **Region by region**: adjacency list, origin, target and path regions of the two models agree (rendered C06 tokens =
+    C07 strings); the path regions also fail together (empty path: `solution[0]` IndexError). -/
+theorem C07_modular_model_regions (mode : Mode) (mz : AnyMaze) (order : List (NCell × NCell)) (hconn : AllConn mz order) :
+    (Tok.adjToks (fromLegacyCfg mode).adj (fromLegacyCfg mode).ct (toMaze mz.base) order).map render
+        = some (adjRegion (fromLegacy mode) order) ∧
+    (∀ s, render (Tok.coordToks (fromLegacyCfg mode).ct s) = coordToks (fromLegacy mode) s) ∧
+    (∀ e, render (Tok.targetToks (fromLegacyCfg mode).prompt (fromLegacyCfg mode).ct e) = coordToks (fromLegacy mode) e) ∧
+    (∀ sol, (Tok.pathToks (fromLegacyCfg mode).path (fromLegacyCfg mode).ct (toMaze mz.base) sol).map render
+        = (pathRegion (fromLegacy mode) sol).toOption) :=
+  ⟨adj_region_agrees mode mz.base order hconn, origin_region_agrees mode, target_region_agrees mode,
+   path_region_agrees mode (toMaze mz.base)⟩
+
+/-- **The two models of `from_legacy(mode).to_tokens(maze)` agree.** For every mode, every maze of the three kinds (any size, any
+    path, the empty one included: both fail) and every order that lists only connections — in particular every legal order, in
+    either sense (`C07_order_legality`) — the C06 model at `fromLegacyCfg mode`, rendered to strings, is the C07 model
+    `modularTokens`; errors of the latter correspond to `none` of the former. Same `order` on both sides. -/
+theorem C07_modular_model_agrees (mode : Mode) (mz : AnyMaze) (order : List (NCell × NCell)) (hconn : AllConn mz order) :
+    (Tok.toTokens (fromLegacyCfg mode) (toMazeIn mz) order).map render = (modularTokens (fromLegacy mode) mz order).toOption := by
+  by_cases hsol : ∀ m s e sol, mz = .solved m s e sol → sol ≠ []
+  · rw [toTokens_fromLegacy_asTokens mode mz order hconn hsol, C07_legacy_eq_modular mode mz order hsol]; rfl
+  · have : ∃ m s e, mz = .solved m s e [] := by
+      cases mz with
+      | lattice m => exact absurd (fun _ _ _ _ h => by cases h) hsol
+      | targeted m s e => exact absurd (fun _ _ _ _ h => by cases h) hsol
+      | solved m s e sol =>
+        cases sol with
+        | nil => exact ⟨m, s, e, rfl⟩
+        | cons c cs => exact absurd (fun _ _ _ _ h => by cases h; simp) hsol
+    obtain ⟨m, s, e, rfl⟩ := this
+    rw [toTokens_fromLegacy_empty]
+    rfl
+
+/-- … for the orders C06 calls legal -/
+theorem C07_modular_model_agrees_legalC06 (mode : Mode) (mz : AnyMaze) (order : List (NCell × NCell)) (h : LegalC06 mode mz order) :
+    (Tok.toTokens (fromLegacyCfg mode) (toMazeIn mz) order).map render = (modularTokens (fromLegacy mode) mz order).toOption :=
+  C07_modular_model_agrees mode mz order ((C07_order_legality mode mz order).1 h)
+
+/-- … for the adjacency listings C07 calls legal -/
+theorem C07_modular_model_agrees_validAdj (mode : Mode) (mz : AnyMaze) (adj : List (NCell × NCell))
+    (hd : ∀ e ∈ mz.base.edges, e.1 = 0 ∨ e.1 = 1) (hv : ValidAdj mz.base adj) :
+    (Tok.toTokens (fromLegacyCfg mode) (toMazeIn mz) adj).map render = (modularTokens (fromLegacy mode) mz adj).toOption :=
+  C07_modular_model_agrees mode mz adj ((C07_order_legality mode mz adj).2.1 hd hv)
+
+/-- **Legacy tokens = rendering of the C06 model's tokens.** `maze.as_tokens(legacy mode)` is, string for string, what property
+    C06's model of `MazeTokenizerModular` emits at `from_legacy(mode)`'s configuration, for the same order (solved mazes with a
+    non-empty path). -/
+theorem C07_legacy_eq_modular_C06 (mode : Mode) (mz : AnyMaze) (order : List (NCell × NCell)) (hconn : AllConn mz order)
+    (hsol : ∀ m s e sol, mz = .solved m s e sol → sol ≠ []) :
+    (Tok.toTokens (fromLegacyCfg mode) (toMazeIn mz) order).map render = some (asTokens mode mz order) := by
+  rw [C07_modular_model_agrees mode mz order hconn, C07_legacy_eq_modular mode mz order hsol]; rfl
+
+/-- **Round trip through the C06 model.** For a `GoodMaze` and any order C06 calls legal: the C06 model yields tokens, they render to
+    the legacy token list, and `from_tokens` (legacy or legacy-equivalent modular tokenizer) parses the rendering back to the same
+    maze. -/
+theorem C07_roundtrip_C06 (mode : Mode) (mz : AnyMaze) (order : List (NCell × NCell)) (tk : TokSpec) (htk : tk ≠ .modular false)
+    (hg : GoodMaze mz) (h : LegalC06 mode mz order) :
+    ∃ toks mz', Tok.toTokens (fromLegacyCfg mode) (toMazeIn mz) order = some toks ∧ render toks = asTokens mode mz order ∧
+      fromTokens tk (render toks) = .ok mz' ∧ mz'.Same mz := by
+  have hsol : ∀ m s e sol, mz = .solved m s e sol → sol ≠ [] := by
+    intro m s e sol h; subst h
+    have := hg.ends.1
+    intro hn; subst hn; simp at this
+  have hl := C07_legacy_eq_modular_C06 mode mz order ((C07_order_legality mode mz order).1 h) hsol
+  have hv := (C07_order_legality mode mz order).2.2 hg.wf h
+  obtain ⟨mz', h1, h2⟩ := C07_roundtrip_list mode mz order tk htk hg hv
+  cases ht : Tok.toTokens (fromLegacyCfg mode) (toMazeIn mz) order with
+  | none => rw [ht] at hl; cases hl
+  | some toks =>
+    rw [ht] at hl
+    have hr : render toks = asTokens mode mz order := by simpa using hl
+    exact ⟨toks, mz', rfl, hr, by rw [hr]; exact h1, h2⟩
+
 /-! ## the side condition is necessary -/
 
 /-- a 3×3 maze whose last row and column are isolated: well formed, square, but `maxIndexOccurs` fails … -/
@@ -403,6 +529,25 @@ example : fromTokensStr (.modular true) (joinSp (asTokens .utUniform exSolved ex
     = .ok (.solved ⟨2, 2, [(1, 0, 0), (0, 0, 1), (0, 0, 0)]⟩ (1, 0) (0, 1) [(1, 0), (0, 0), (0, 1)]) := by decide
 example : (asTokens .utUniform exSolved exAdj).length = 25 ∧ (asTokens .cttIndexed exSolved exAdj).length = 69 := by decide
 example : modularTokens (fromLegacy .cttIndexed) exSolved exAdj = .ok (asTokens .cttIndexed exSolved exAdj) := by decide
+/-- the link to the C06 model on the same instance: `exAdj` is legal in C06's sense (a permutation of the canonical edge list up to
+    orientation, one entry flipped), and in C07's; the C06 model renders to the legacy tokens -/
+example : LegalC06 .cttIndexed exSolved exAdj ∧ AllConn exSolved exAdj ∧ exSolved.base.WF :=
+  ⟨⟨_, rfl, Tok.validOrderB_iff.1 (by decide)⟩, by decide, by decide⟩
+example : (Tok.toTokens (fromLegacyCfg .cttIndexed) (toMazeIn exSolved) exAdj).map render = some (asTokens .cttIndexed exSolved exAdj) :=
+  C07_legacy_eq_modular_C06 _ _ _ (by decide) (by intro m s e sol h; cases h; simp)
+example : (Tok.toTokens (fromLegacyCfg .utUniform) (toMazeIn exSolved) exAdj).map (·.length) = some 25 := by decide
+example : fromLegacyCfg .utRasterized = fromLegacyCfg .utUniform ∧ fromLegacyCfg .cttIndexed ≠ fromLegacyCfg .utUniform := by decide
+/-- `AllConn` is needed: on a pair that is not a connection (an illegal order) the general model emits the wall token, the
+    specialised one the connector — the two models differ exactly outside the legal orders -/
+example : ¬ AllConn exSolved [((1, 0), (1, 1))] ∧
+    (Tok.toTokens (fromLegacyCfg .utUniform) (toMazeIn (.lattice exMaze)) [((1, 0), (1, 1))]).map (·.map Tok.Tok.str)
+      = some ["<ADJLIST_START>", "(1,0)", "<XX>", "(1,1)", ";", "<ADJLIST_END>"] ∧
+    (modularTokens (fromLegacy .utUniform) (.lattice exMaze) [((1, 0), (1, 1))]).toOption
+      = some ["<ADJLIST_START>".toList, "(1,0)".toList, "<-->".toList, "(1,1)".toList, ";".toList, "<ADJLIST_END>".toList] := by
+  refine ⟨by decide, by decide, by decide⟩
+/-- both models fail on an empty path -/
+example : Tok.toTokens (fromLegacyCfg .utUniform) (toMazeIn (.solved exMaze (0, 0) (0, 0) [])) exAdj = none ∧
+    modularTokens (fromLegacy .utUniform) (.solved exMaze (0, 0) (0, 0) []) exAdj = .error .indexError := ⟨by decide, by decide⟩
 /-- multi-digit coordinates through the string level -/
 example : coordNoneable "( 12 , 107 )".toList = some [12, 107] ∧ coordNoneable "(12,107)".toList = some [12, 107] ∧
     coordNoneable "<-->".toList = none ∧ coordNoneable "((1,2))".toList = some [1, 2] ∧ coordNoneable "(1,2,3)".toList = some [1, 2, 3] := by
